@@ -216,6 +216,15 @@ func (h *Hub) connectFoundService(remoteService *api.ServiceDetails, host, port,
 	h.muxConnect.Lock()
 	defer h.muxConnect.Unlock()
 
+	// the user may have removed the service or cancelled the pairing while the connection
+	// was being established, then it must not be used
+	pairingState := remoteService.ConnectionStateDetail().State()
+	if !remoteService.Trusted() && pairingState != api.ConnectionStateQueued {
+		logging.Log().Debugf("closing connection to %s: the service is no longer paired", remoteService.SKI())
+		_ = conn.Close()
+		return nil
+	}
+
 	if !h.keepThisConnection(conn, false, remoteService) {
 		errorString := fmt.Sprintf("closing connection to %s: ignoring this connection", remoteService.SKI())
 		return errors.New(errorString)
@@ -379,6 +388,11 @@ func (h *Hub) initateConnection(remoteService *api.ServiceDetails, entry *api.Md
 
 	// try connecting via the provided IP addresses
 	for _, address := range entry.Addresses {
+		// do not try another address if the service is no longer paired or queued for pairing
+		if !remoteService.Trusted() && remoteService.ConnectionStateDetail().State() != api.ConnectionStateQueued {
+			return false
+		}
+
 		logging.Log().Debug("trying to connect to", remoteService.SKI(), "at", address)
 		// IPv4
 		addressValue := address.String()
